@@ -93,6 +93,26 @@ def rule_r1(facts, col):
                         "fill level: an oversize commit/consume corrupts the ring instead of being refused" % fld, {})
 
 
+def rule_r4(facts, col, rule_id="C01.R4"):
+    """each ring position belongs to one side: the consume body never writes wpos, the commit body never rpos"""
+    for body in facts.bodies:
+        if body.kind == "closure":
+            continue
+        ws = ring_writes(body)
+        if not ws:
+            continue
+        fields = {f for _, f, _ in ws}
+        key = "%s:{%s}" % (body.q, ",".join(sorted(fields)))
+        if "rpos" in fields and "wpos" in fields:
+            bb = [b for b, f, _ in ws if f in ("wpos", "rpos")][0]
+            col.bad(rule_id, key, body.where(bb),
+                    "one function updates both the read position and the write position: windows are position snapshots "
+                    "taken earlier by the other side (a BufferWriter remembers wpos), so moving the other side's position "
+                    "makes an already acquired window commit/consume at the wrong place (stale or skipped samples)", {})
+        else:
+            col.ok(rule_id, key, body.where(ws[0][0]), "writes only its own side's position (+ the fill counter)")
+
+
 def rule_r2(facts, col, rule_id="C01.R2"):
     """the Buffer constructor rejects an element size that does not divide the buffer"""
     for body in facts.bodies:
@@ -200,6 +220,8 @@ def run(ctx):
     rule_r1(facts, ctx)
     rule_r2(facts, ctx)
     rule_r3(facts, ctx)
+    rule_r4(facts, ctx)
+    ctx.floor("C01.R4", 2, "consume and produce bodies")
     ctx.floor("C01.R1", 4, "writes of rpos/used in consume and wpos/used in produce")
     ctx.floor("C01.R2", 1, "Buffer constructor")
     ctx.floor("C01.R3", 2, "from_raw_parts_mut in Circ::full_buffer + Circ.len initialisation")
